@@ -1,7 +1,7 @@
 """cnvlib/fix.py constants -> Generated/FixConsts.lean"""
 import ast
 import os
-from ..translate import parse, find_func, rat, dec
+from ..translate import seg, parse, find_func, rat, dec
 
 NAME = "FixConsts"
 
@@ -13,15 +13,15 @@ def extract(repo, o):
     d = fn.args.defaults
     for a, v in zip(args[len(args) - len(d):], d):
         if a.arg == "epsilon":
-            o.flt("WEIGHT_EPSILON", ast.literal_eval(v), ast.get_source_segment(src, v), "apply_weights epsilon (minimum bin weight)")
+            o.flt("WEIGHT_EPSILON", ast.literal_eval(v), seg(src, v), "apply_weights epsilon (minimum bin weight)")
     # `x = 0.9` emphasis of the reference-spread weight
     for n in ast.walk(fn):
         if isinstance(n, ast.Assign) and isinstance(n.targets[0], ast.Name) and n.targets[0].id == "x":
-            o.flt("WEIGHT_REF_EMPHASIS", ast.literal_eval(n.value), ast.get_source_segment(src, n.value), "apply_weights x")
+            o.flt("WEIGHT_REF_EMPHASIS", ast.literal_eval(n.value), seg(src, n.value), "apply_weights x")
     # upper clip of the weights: `weights.clip(epsilon, 1.0)`
     for n in ast.walk(fn):
         if isinstance(n, ast.Call) and isinstance(n.func, ast.Attribute) and n.func.attr == "clip" and len(n.args) == 2:
-            o.flt("WEIGHT_MAX", ast.literal_eval(n.args[1]), ast.get_source_segment(src, n.args[1]), "apply_weights clip upper bound")
+            o.flt("WEIGHT_MAX", ast.literal_eval(n.args[1]), seg(src, n.args[1]), "apply_weights clip upper bound")
     # do_fix: which corrections each class gets (positional booleans of the two load_adjust_coverages calls)
     fd = find_func(tree, "do_fix")
     calls = [n for n in ast.walk(fd) if isinstance(n, ast.Call) and isinstance(n.func, ast.Name)
